@@ -12,7 +12,9 @@ import json;d=json.load(open('$d/meta.json'));print(' '.join(c['check'] for c in
   [ -z "$ids" ] && { echo "$n: no detecting check on record"; continue; }
   WT="$(mktemp -d /tmp/verif-reg-XXXXXX)"; rmdir "$WT"
   git -C /repo worktree add -q --detach "$WT" HEAD || exit 2
-  if ! git -C "$WT" apply "$d/patch.diff" 2>/dev/null; then
+  if [ -f "$d/patch.head.diff" ] && git -C "$WT" apply "$d/patch.head.diff" 2>/dev/null; then
+    : # the same change ported to HEAD after a later fix: commit touched its lines
+  elif ! git -C "$WT" apply "$d/patch.diff" 2>/dev/null; then
     if ! (cd "$WT" && patch -p1 -s --no-backup-if-mismatch < "$OLDPWD/$d/patch.diff" >/dev/null 2>&1); then
       echo "$n: STALE (patch does not apply to HEAD)"; git -C /repo worktree remove --force "$WT"; continue
     fi
